@@ -284,6 +284,63 @@ def run_nan_chain(ctx, res, seed):
     res.case(('nanchain', seed), True, {'nan_chain_seed': seed})
 
 
+def run_field_inputs(ctx, res, seed):
+    """`call_model` on a component with a FIELD-QUANTITY input next to scalar inputs (serial, vectorised and executor paths): batches
+    in which several samples share their scalar values and differ only in the field; every sample must get the value it gets alone,
+    and permuting the samples must permute the results"""
+    from amisc.compression import SVD
+    from concurrent.futures import ThreadPoolExecutor
+    rng = random.Random(seed)
+    npts = 6
+    grid = np.linspace(0, 1, npts)
+    rs = np.random.RandomState(seed % 2 ** 31)
+    # the field quantity's components are named differently from the variable (`u`, `v` of `p`): inputs travel under the field names
+    fld = Variable('p', compression=SVD(rank=2, coords=grid, fields=['u', 'v'], data_matrix={'u': rs.rand(12, npts), 'v': rs.rand(12, npts)}))
+    a, b = Variable('a', domain=(0.0, 1.0)), Variable('b', domain=(-1.0, 1.0))
+
+    def serial_model(inputs, p_coords=None):
+        pf = np.asarray(inputs['u'], dtype=float) + 0.5 * np.asarray(inputs['v'], dtype=float)
+        return {'y0': float(inputs['a']) + 2.0 * float(inputs['b']) + float(np.sum(pf * np.arange(1, npts + 1))), 'y1': float(np.max(pf)) - float(inputs['a'])}
+
+    def vec_model(inputs, p_coords=None):
+        pf = np.atleast_2d(np.asarray(inputs['u'], dtype=float)) + 0.5 * np.atleast_2d(np.asarray(inputs['v'], dtype=float))
+        return {'y0': np.atleast_1d(inputs['a']) + 2.0 * np.atleast_1d(inputs['b']) + pf @ np.arange(1, npts + 1), 'y1': pf.max(axis=-1) - np.atleast_1d(inputs['a'])}
+    N = 9
+    scal = [(rng.random(), rng.uniform(-1, 1)) for _ in range(3)]
+    xa = np.array([scal[i // 3][0] for i in range(N)]); xb = np.array([scal[i // 3][1] for i in range(N)])    # samples 3k..3k+2 share scalars
+    xu, xv = rs.rand(N, npts), rs.rand(N, npts)
+    info = {'field_inputs': seed}
+    for label, model, vect in (('serial', serial_model, False), ('vectorised', vec_model, True)):
+        comp = Component(model, inputs=[a, b, fld], outputs=[Variable('y0'), Variable('y1')], name='cf', vectorized=vect)
+        x = {'a': xa, 'b': xb, 'u': xu, 'v': xv}
+        runs = [('plain', lambda d: comp.call_model(d))]
+        if not vect:
+            runs.append(('thread-pool', lambda d: _with_pool(comp, d)))
+        for rname, call in runs:
+            full = call({k: v.copy() for k, v in x.items()})
+            for i in range(N):
+                one = comp.call_model({'a': xa[i:i + 1], 'b': xb[i:i + 1], 'u': xu[i:i + 1], 'v': xv[i:i + 1]})
+                for o in ('y0', 'y1'):
+                    if not close(np.asarray(one[o]).reshape(-1), np.asarray(full[o]).reshape(N, -1)[i]):
+                        res.failures.append({'kind': 'call_model: sample-alone-differs-from-sample-in-batch (field-quantity input, shared scalars)',
+                                             'input': {**info, 'path': label + '/' + rname, 'sample': i, 'output': o},
+                                             'observed': np.asarray(full[o]).reshape(N, -1)[i].tolist(), 'expected': np.asarray(one[o]).reshape(-1).tolist()})
+            perm = list(range(N)); rng.shuffle(perm)
+            pm = call({'a': xa[perm], 'b': xb[perm], 'u': xu[perm], 'v': xv[perm]})
+            for o in ('y0', 'y1'):
+                if not close(np.asarray(pm[o]).reshape(N, -1), np.asarray(full[o]).reshape(N, -1)[perm]):
+                    res.failures.append({'kind': 'call_model: permuting-samples-does-not-permute-results (field-quantity input)',
+                                         'input': {**info, 'path': label + '/' + rname, 'permutation': perm, 'output': o}})
+            res.hit('call_model-field-input-' + label + '-' + rname)
+    res.case(('field_inputs', seed), True, info)
+
+
+def _with_pool(comp, d):
+    from concurrent.futures import ThreadPoolExecutor
+    with ThreadPoolExecutor(max_workers=3) as ex:
+        return comp.call_model(d, executor=ex)
+
+
 def run(ctx: core.Ctx, only=None) -> core.Result:
     res = core.Result()
     res.rule = ('components (1-3 inputs, 2 outputs, serial/vectorised models, random histories, samples on and off grid '
@@ -293,13 +350,15 @@ def run(ctx: core.Ctx, only=None) -> core.Result:
     lines, post = [], []
     items = [o.get('input', o) for o in only] if only is not None else core.corpus_cases('C10') + \
         [{'seed': ctx.rng.randrange(10 ** 6), 'what': 'comp'} for _ in range(ctx.scale(4, 40))] + \
-        [{'seed': 2 * ctx.rng.randrange(10 ** 6) + (k_ % 2), 'what': w} for k_, w in enumerate(['ff', 'loop', 'loop', 'nanchain'] * ctx.scale(1, 6))]
+        [{'seed': 2 * ctx.rng.randrange(10 ** 6) + (k_ % 2), 'what': w} for k_, w in enumerate(['ff', 'loop', 'loop', 'nanchain', 'fields'] * ctx.scale(1, 6))]
     for it in items:
         with core.guarded(res, 'scenario-raised', it):
             if it.get('what', 'comp') == 'comp':
                 run_component(ctx, res, it['seed'], lines, post)
             elif it['what'] == 'nanchain':
                 run_nan_chain(ctx, res, it['seed'])
+            elif it['what'] == 'fields' or 'field_inputs' in it:
+                run_field_inputs(ctx, res, it.get('field_inputs', it['seed']))
             else:
                 run_system(ctx, res, it['seed'], it['what'] == 'loop')
     # shape model: loop shape first, then the output shape for that loop shape
